@@ -144,6 +144,14 @@ fn by_token_amounts(l: &Ledger, w: &StdWorld, s: &mut ByAmt) -> Result<(), Strin
                     return Err(format!("by-token-amounts({ma},{mb}) on [{}..{}) refused with LiquidityZero although liquidity 1 costs {na}/{nb}", p.lower, p.upper));
                 }
             }
+            else if o.code() == Some(crate::oracles::ec(whirlpool::errors::ErrorCode::TokenMaxExceeded)) {
+                // the instruction derives the liquidity from the maxima itself: "exceeds the maximum" can only be the answer when not
+                // even one unit of liquidity fits
+                let (na, nb) = cost(1);
+                if na <= bu(ma as u128) && nb <= bu(mb as u128) {
+                    return Err(format!("by-token-amounts({ma},{mb}) on [{}..{}) refused with TokenMaxExceeded although liquidity 1 costs {na}/{nb}, within the maxima", p.lower, p.upper));
+                }
+            }
             // other failures (overflow in the estimate etc.) are unconstrained: "for which the computation succeeds"
         }
         // price slippage bounds: current price outside [min,max] must be refused
